@@ -185,29 +185,72 @@ Proof.
     destruct reaped; [rewrite (RL eq_refl)|]; reflexivity.
 Qed.
 
+(* ---- ignored tests ---- *)
+Lemma case_item_ok_run all_sep run_ign count tc : case_ok tc = true ->
+  case_item_ok all_sep run_ign tc (run_case all_sep run_ign count tc) = true.
+Proof.
+  intro H. unfold case_item_ok, run_case, skipped. destruct tc as [ign t]. simpl in *. unfold case_ok in H. simpl in H.
+  destruct ign, run_ign; simpl; try (apply item_ok_run; exact H). reflexivity.
+Qed.
+
+(* under run-ignored the marker is not looked at *)
+Lemma run_ignored_as_normal all_sep count t :
+  run_case all_sep true count {| c_ign := true; c_test := t |} = run_case all_sep true count {| c_ign := false; c_test := t |} /\
+  run_case all_sep true count {| c_ign := true; c_test := t |} = run_test all_sep count t /\
+  (forall it, case_item_ok all_sep true {| c_ign := true; c_test := t |} it = item_ok all_sep t it).
+Proof. repeat split. Qed.
+
+(* without it an ignored test leaves no trace, whatever it is (no validity asked) *)
+Lemma ignored_not_run all_sep count t :
+  let it := run_case all_sep false count {| c_ign := true; c_test := t |} in
+  i_started it = false /\ i_fails it = [] /\ i_calls it = 0%nat /\ i_conts it = 0%nat /\ i_lost it = false.
+Proof. repeat split. Qed.
+Lemma ignored_not_run_tests all_sep count t tl :
+  run_tests all_sep false count ({| c_ign := true; c_test := t |} :: tl) =
+  (skip_item :: fst (run_tests all_sep false count tl), snd (run_tests all_sep false count tl)).
+Proof.
+  simpl. rewrite N.add_0_r. destruct (run_tests all_sep false count tl). reflexivity.
+Qed.
+
+(* the two counters: every test is counted exactly once, as run or as ignored *)
+Lemma count_cases_spec run_ign : forall ts nrun nign,
+  count_cases run_ign nrun nign ts =
+  (nrun + N.of_nat (length (filter (fun tc => negb (skipped run_ign tc)) ts)), nign + N.of_nat (length (filter (skipped run_ign) ts))).
+Proof.
+  induction ts as [|t tl IH]; intros nrun nign; [simpl; f_equal; lia|].
+  simpl. destruct (skipped run_ign t); simpl; rewrite IH; f_equal; lia.
+Qed.
+Lemma filter_partition_length {A} (f : A -> bool) : forall l,
+  (length (filter (fun x => negb (f x)) l) + length (filter f l) = length l)%nat.
+Proof. induction l as [|x tl IH]; [reflexivity|]. simpl. destruct (f x); simpl; lia. Qed.
+
 (* ---- the whole run ---- *)
-Lemma run_tests_ok all_sep : forall ts count, forallb test_ok ts = true ->
-  items_ok all_sep ts (fst (run_tests all_sep count ts)) = true /\
-  snd (run_tests all_sep count ts) = count + total_fails (fst (run_tests all_sep count ts)) /\
-  length (fst (run_tests all_sep count ts)) = length ts.
+Lemma run_tests_ok all_sep run_ign : forall ts count, forallb case_ok ts = true ->
+  items_ok all_sep run_ign ts (fst (run_tests all_sep run_ign count ts)) = true /\
+  snd (run_tests all_sep run_ign count ts) = count + total_fails (fst (run_tests all_sep run_ign count ts)) /\
+  length (fst (run_tests all_sep run_ign count ts)) = length ts.
 Proof.
   induction ts as [|t tl IH]; intros count H.
   - simpl. unfold total_fails. simpl. repeat split. lia.
   - simpl in H. apply andb_prop in H. destruct H as [Ht Htl]. simpl.
-    specialize (IH (count + N.of_nat (length (i_fails (run_test all_sep count t)))) Htl).
-    destruct (run_tests all_sep _ tl) as [its c]. simpl in *. destruct IH as [I1 [I2 I3]].
-    rewrite (item_ok_run all_sep count t Ht), I1. repeat split; [|lia].
+    specialize (IH (count + N.of_nat (length (i_fails (run_case all_sep run_ign count t)))) Htl).
+    destruct (run_tests all_sep run_ign _ tl) as [its c]. simpl in *. destruct IH as [I1 [I2 I3]].
+    rewrite (case_item_ok_run all_sep run_ign count t Ht), I1. repeat split; [|lia].
     rewrite I2. unfold total_fails. simpl. lia.
 Qed.
 
 Lemma run_meets_spec : forall s, valid s = true -> spec s (run s) = true.
 Proof.
   intros s V. unfold valid in V. apply andb_prop in V. destruct V as [Vn Vt].
-  destruct (run_tests_ok (s_all_sep s) (s_tests s) 0 Vt) as [I1 [I2 I3]].
-  unfold spec, run. destruct (run_tests (s_all_sep s) 0 (s_tests s)) as [its total]. simpl in *.
+  destruct (run_tests_ok (s_all_sep s) (s_run_ign s) (s_tests s) 0 Vt) as [I1 [I2 I3]].
+  unfold spec, run. destruct (run_tests (s_all_sep s) (s_run_ign s) 0 (s_tests s)) as [its total].
+  rewrite count_cases_spec. simpl in *.
   rewrite I1. subst total. change (0 + total_fails its) with (total_fails its). rewrite !N.eqb_refl.
   cbn [andb negb]. rewrite andb_true_r.
+  pose proof (filter_partition_length (skipped (s_run_ign s)) (s_tests s)) as P.
   destruct (s_tests s) as [|t tl]; [discriminate|].
-  assert (E : (N.of_nat (length (t :: tl)) =? 0) = false) by (apply N.eqb_neq; simpl; lia).
+  assert (E : (N.of_nat (length (filter (fun tc => negb (skipped (s_run_ign s) tc)) (t :: tl))) +
+               N.of_nat (length (filter (skipped (s_run_ign s)) (t :: tl))) =? 0) = false)
+    by (apply N.eqb_neq; change (length (t :: tl)) with (S (length tl)) in P; lia).
   rewrite E, orb_false_r, eqb_reflx. reflexivity.
 Qed.
